@@ -426,12 +426,22 @@ func runRouting(c *Ctx, prop string) {
 		if si < len(directedSets) {
 			paths = append(paths, directedPaths[si]...)
 		}
-		for _, path := range paths {
-			verb := verbs[c.Rng.Intn(len(verbs))]
-			if len(acc) > 0 && c.Rng.Intn(3) > 0 {
-				verb = strings.ToUpper(acc[c.Rng.Intn(len(acc))].b.kind)
-				if verb == "*" {
-					verb = verbs[c.Rng.Intn(len(verbs))]
+		// verbs no rule of the set names, on the first paths of every set: HEAD is not GET, OPTIONS nothing
+		npaths := len(paths)
+		for k := 0; k < 2 && k < npaths; k++ {
+			paths = append(paths, paths[k])
+		}
+		for pi, path := range paths {
+			verb := ""
+			if pi >= npaths {
+				verb = []string{"HEAD", "OPTIONS"}[pi-npaths]
+			} else {
+				verb = verbs[c.Rng.Intn(len(verbs))]
+				if len(acc) > 0 && c.Rng.Intn(3) > 0 {
+					verb = strings.ToUpper(acc[c.Rng.Intn(len(acc))].b.kind)
+					if verb == "*" {
+						verb = verbs[c.Rng.Intn(len(verbs))]
+					}
 				}
 			}
 			if strings.ContainsAny(path, "\t\n\r") {
